@@ -262,3 +262,14 @@ package processor
 //@     invariant dp.mergeSettings.numReturned == 0
 //@   ensures [limit-count-restarts-with-each-pass] dp.mergeSettings.numReturned == 0
 //@ end
+
+// C05 (`head n` yields the n newest matches): whether a pipeline may be split
+// into parallel chains in front of a command is decided from the command's
+// planning flags (DoesInputOrderMatter / CanParallelSearch).  head takes the
+// FIRST n rows of its input, with or without a condition, so it always needs
+// its input in order and never ignores it: a pipeline is not split in front of
+// any head.
+//@ func NewHeadDP
+//@   props C05
+//@   ensures [head-always-needs-its-input-in-order] result != nil && result.inputOrderMatters && !result.ignoresInputOrder
+//@ end
